@@ -54,7 +54,12 @@ def gen_count(rng, uni: qgen.Universe, ev: str, uses: List[Tuple[str, str]], nva
         p, sp = gen_pred(rng, v, rng.choice([0, 1, 2]))
         src += f".Where(lambda {v}: {p})"
         preds.append(sp)
-    return src + ".Count()", ["count", [name.lower(), ct, bank, arrow, preds]]
+    if rng.random() < 0.45:
+        nvar[0] += 1
+        v = f"y{nvar[0]}"
+        b, sb = gen_pa(rng, v, rng.choice([0, 1, 2]))
+        return src + f".Select(lambda {v}: {b}).Sum()", ["count", [name.lower(), ct, bank, arrow, preds, ["sum", sb]]]
+    return src + ".Count()", ["count", [name.lower(), ct, bank, arrow, preds, ["count"]]]
 
 
 def gen_ex(rng, uni, ev, d, uses, nvar, top=False, cmp_ok=False):
